@@ -651,49 +651,72 @@ func phiLeaves(v ssa.Value) []ssa.Value {
 }
 
 // reachUnder: is target reachable from fn's entry when every If whose condition is decided by
-// assume (through negation) only follows the decided edge? A plain graph search: no path
-// enumeration, conditions merged by phis are treated as unknown.
+// assume (through negation, and through phis that merge decided values over feasible edges — the
+// form `c := x == nil || y == nil; if c {` takes) only follows the decided edge? Optimistic fixpoint
+// over feasible edges (as in conditional constant propagation): no path enumeration.
 func reachUnder(fn *ssa.Function, target ssa.Instruction, assume func(v ssa.Value) Tri) bool {
-	var eval func(v ssa.Value) Tri
-	eval = func(v ssa.Value) Tri {
+	type edge struct{ from, to *ssa.BasicBlock }
+	feasible := map[edge]bool{}
+	reach := map[*ssa.BasicBlock]bool{fn.Blocks[0]: true}
+	var eval func(v ssa.Value, depth int) Tri
+	eval = func(v ssa.Value, depth int) Tri {
 		switch x := v.(type) {
 		case *ssa.UnOp:
 			if x.Op == token.NOT {
-				return eval(x.X).not()
+				return eval(x.X, depth).not()
 			}
 		case *ssa.Const:
 			if x.Value != nil && x.Value.Kind() == constant.Bool {
 				return tri(constant.BoolVal(x.Value))
 			}
+		case *ssa.Phi:
+			if r := assume(v); r != U || depth > 3 {
+				return r
+			}
+			res, first := U, true
+			for i, e := range x.Edges {
+				if !feasible[edge{x.Block().Preds[i], x.Block()}] {
+					continue
+				}
+				r := eval(e, depth+1)
+				if first {
+					res, first = r, false
+				} else if r != res {
+					return U
+				}
+			}
+			return res
 		}
 		return assume(v)
 	}
-	seen := map[*ssa.BasicBlock]bool{}
-	st := []*ssa.BasicBlock{fn.Blocks[0]}
-	for len(st) > 0 {
-		b := st[len(st)-1]
-		st = st[:len(st)-1]
-		if seen[b] {
-			continue
-		}
-		seen[b] = true
-		if b == target.Block() {
-			return true
-		}
-		if iff, ok := b.Instrs[len(b.Instrs)-1].(*ssa.If); ok {
-			switch eval(iff.Cond) {
-			case T:
-				st = append(st, b.Succs[0])
-			case F:
-				st = append(st, b.Succs[1])
-			default:
-				st = append(st, b.Succs...)
+	for changed := true; changed; {
+		changed = false
+		for _, b := range fn.Blocks {
+			if !reach[b] {
+				continue
 			}
-			continue
+			succs := b.Succs
+			if iff, ok := b.Instrs[len(b.Instrs)-1].(*ssa.If); ok {
+				switch eval(iff.Cond, 0) {
+				case T:
+					succs = b.Succs[:1]
+				case F:
+					succs = b.Succs[1:2]
+				}
+			}
+			for _, s := range succs {
+				if !feasible[edge{b, s}] {
+					feasible[edge{b, s}] = true
+					changed = true
+				}
+				if !reach[s] {
+					reach[s] = true
+					changed = true
+				}
+			}
 		}
-		st = append(st, b.Succs...)
 	}
-	return false
+	return reach[target.Block()]
 }
 
 // returnsNilError: every return of fn yields a nil constant as result idx, directly or by
